@@ -255,6 +255,15 @@ def check(ctx):
     mb = [b for k, b in prog.bodies.items() if (k.startswith("acmed::inner_main") or k.startswith("acmed::main::") or k == "acmed::main")
           and b.calls_to("acmed::main_event_loop::MainEventLoop::new")]
     ctx.floor(R4, "MainEventLoop::new call in main", len(mb), 1)
+    from .main_model import trace as _main_trace
+    samples = [[], ["/r/one.pem"], ["/r/b.pem", "/r/a.pem", "/r/b.pem"]]
+    trs = [_main_trace(prog, False, s_) for s_ in samples]
+    if all(t_ is not None and t_["roots"] is not None and t_["events"][:1] == ["new"] for t_ in trs):
+        # evaluation first: inner_main interpreted with --root-cert answering the sample values
+        for s_, t_ in zip(samples, trs):
+            ctx.require(R4, t_["roots"] == s_, "acmed/src/main.rs", "--root-cert given %d time(s): MainEventLoop::new receives %s (expected exactly these values, in order: %s)" % (len(s_), t_["roots"], s_),
+                        ["main", "root-cert-flag"])
+        mb = []
     for b in mb:
         for c in b.calls_to("acmed::main_event_loop::MainEventLoop::new"):
             sl = arg_origins(c, 1)
